@@ -187,6 +187,14 @@ Proof.
   cbn [apply]. rewrite !lookup_set, Et. reflexivity.
 Qed.
 
+(* appended: discipline of concatenated scripts *)
+Lemma disciplined_run_app : forall l1 l2 d,
+  disciplined_run d (l1 ++ l2) <-> disciplined_run d l1 /\ disciplined_run (run d l1) l2.
+Proof.
+  induction l1 as [|s l1 IH]; intros l2 d; cbn [app disciplined_run run fold_left]; [tauto|].
+  fold (run (apply d s) l1). rewrite IH. tauto.
+Qed.
+
 End AtomFS.
 
 Arguments Whole {B} b.
